@@ -1,7 +1,8 @@
 """C07 - every way of reading parameters returns the tree's current values.
 
-One case is an initial parameter tree and a sequence of operations run on ONE tax-benefit
-system: reads at a date through the four routes (the system's at-instant view, the
+One case is an initial parameter tree and a sequence of operations run on a WORLD of tax-benefit
+systems (a baseline, reforms over it - with or without a parameter modifier -, reforms of reforms;
+every operation names its system, and each system's reads are compared with ITS OWN tree): reads at a date through the four routes (the system's at-instant view, the
 parameter object called at the date, a formula's `parameters` argument with the trace off
 and on), optionally followed by fancy indexing (an array of names, Enum members or an
 EnumArray, then further arrays / a field; an array of dates), interleaved with the
@@ -51,10 +52,12 @@ ANCHORS = ["openfisca_core/taxbenefitsystems/tax_benefit_system.py", "openfisca_
            "openfisca_core/parameters/parameter_node.py", "openfisca_core/parameters/at_instant_like.py"]
 RULE = ("a random parameter tree (leaves with 0-4 dated entries incl. nulls, nodes, tax scales, homogeneous groups "
         "of depth 1-3 with a member that is undefined at some dates, inhomogeneous groups, groups of before_/after_ "
-        "dated members in and out of chronological order) and 5-16 operations on one system: reads by the four "
+        "dated members in and out of chronological order) and 5-18 operations: reads by the four "
         "routes at 2-3 'hot' dates (repeated, so the cache is hit) and at every boundary date +-1, to leaves, nodes, "
         "missing members and beyond leaves, with name vectors (str / Enum members / EnumArray / ints; unknown and "
-        "empty keys; second-level vectors and fields) and date vectors; load_parameters from a generated YAML "
+        "empty keys; second-level vectors and fields) and date vectors; up to four systems (baseline, reforms with "
+        "and without modifier, reforms of reforms), every operation on any of them, the same path and date re-read "
+        "on the changed system and on its relatives in both orders after each change; load_parameters from a generated YAML "
         "directory (nodes as directories or files, index.yaml), assignment of a new node, Reform with reads inside "
         "apply before/after modify_parameters (1-3 range updates at leaf paths; a bad path; a modifier returning "
         "None), modify_parameters on a non-reform, in-place update of the live tree.  A case is non-trivial when a "
@@ -150,15 +153,17 @@ ROUTE = {"system": "RSystem", "direct": "RDirect", "formula": "(RFormula false)"
 def cop(o):
     k = o["op"]
     if k == "read":
-        return f"(Read {ROUTE[o['route']]} {cpath(o['path'])} {cz(O(o['date']))} {ctail(o['tail'])})"
-    if k == "load":
-        return f"(Load {ctree(o['tree'])})"
-    if k == "reform":
-        return "BeginReform"
-    if k == "modify":
+        term = f"(Read {ROUTE[o['route']]} {cpath(o['path'])} {cz(O(o['date']))} {ctail(o['tail'])})"
+    elif k == "load":
+        term = f"(Load {ctree(o['tree'])})"
+    elif k == "reform":
+        term = "NewReform"
+    elif k == "modify":
         ups = [f"({cpath(u['path'])}, {cupd(u)})" for u in o["ups"]]
-        return f"(Modify {clist(ups)} {cbool(o['returns'])})"
-    return f"(Poke {cpath(o['path'])} {cupd(o)})"
+        term = f"(Modify {clist(ups)} {cbool(o['returns'])})"
+    else:
+        term = f"(Poke {cpath(o['path'])} {cupd(o)})"
+    return f"({o.get('sys', 0)}%nat, {term})"
 
 
 def coq_case(c):
@@ -435,26 +440,30 @@ def update_at(root, u):
     x.update(start=mk_instant(u["start"]), stop=None if u["stop"] is None else mk_instant(u["stop"]), value=u["v"])
 
 
-def exec_ops(system, ops, out):
-    """Run the operations on [system]; a 'reform' operation builds a real Reform over the current system whose
-    apply() runs the next [inside] operations on the reform under construction.  Gives the current system."""
+def exec_ops(systems, ops, out):
+    """Run the operations; each names the system (index into [systems]) it is applied to.  A 'reform'
+    operation builds a real Reform over that system; the reform joins [systems] as soon as its apply()
+    starts, and apply() runs the next [inside] operations (on whichever systems they name)."""
     i = 0
     while i < len(ops):
         o = ops[i]
         k = o["op"]
         i += 1
+        if o.get("sys", 0) >= len(systems):
+            out.append([Err("EOther", "no such system"), []])
+            continue
+        system = systems[o.get("sys", 0)]
         if k == "reform":
             inside = ops[i:i + o["inside"]]
             i += len(inside)
-            holder = {}
 
             class GeneratedReform(Reform):
                 def apply(self):
+                    systems.append(self)
                     out.append(DONE)
-                    holder["system"] = exec_ops(self, inside, out)
+                    exec_ops(systems, inside, out)
 
             GeneratedReform(system)
-            system = holder["system"]
             continue
         try:
             if k == "read":
@@ -481,19 +490,20 @@ def exec_ops(system, ops, out):
                 system.modify_parameters(modifier)
                 ans = DONE
             else:
+                # which systems are bound to the very object that is mutated (for the oracle)
+                shared = [j for j, x in enumerate(systems) if x.parameters is system.parameters]
                 update_at(system.parameters, o)
-                ans = DONE
+                ans = [None, [], shared]
         except Exception as e:  # noqa: BLE001 - a refused operation is an observation
             ans = [Err(errkind(e), f"{type(e).__name__}: {e}"[:200]), []]
             if k == "read":
                 ans.append(ref)
         out.append(ans)
-    return system
 
 
 def run_impl(c):
     out = []
-    exec_ops(new_system(c["tree"]), c["ops"], out)
+    exec_ops([new_system(c["tree"])], c["ops"], out)
     return out
 
 
@@ -583,22 +593,30 @@ def oracle(c, obs):
         return f"run: the sequence could not be run: {obs.kind} ({obs.msg})"
     if len(obs) != len(c["ops"]):
         return f"run: {len(c['ops'])} operations gave {len(obs)} answers"
-    tainted = False         # the live tree was mutated in place: view routes are not claimed any more
+    tainted = set()         # systems whose live tree was mutated in place: view routes not claimed any more
     for n, (o, a) in enumerate(zip(c["ops"], obs)):
         k = o["op"]
+        me = o.get("sys", 0)
         if k == "poke":
-            tainted = tainted or not is_err(a[0])
+            if not is_err(a[0]):
+                tainted.update(a[2] if len(a) > 2 else [me])
             continue
         if k in ("load", "modify"):
             if not is_err(a[0]) and (k == "load" or o["returns"]):
-                tainted = False
+                tainted.discard(me)
+            continue
+        if k == "reform":
+            # the reform is bound to the same tree object as its baseline
+            if me in tainted:
+                tainted.add(1 + sum(1 for x in c["ops"][:n] if x["op"] == "reform"))
             continue
         if k != "read":
             continue
-        if tainted and o["route"] != "direct":
+        if me in tainted and o["route"] != "direct":
             continue
         got, ref, tail = a[0], a[2], o["tail"]
-        where = f"operation {n} ({o['route']} read of {'.'.join(o['path']) or '<root>'} at {o['date']}, {tail['k']})"
+        where = (f"operation {n} ({o['route']} read on system {me} of {'.'.join(o['path']) or '<root>'} at "
+                 f"{o['date']}, {tail['k']})")
         if "error" in ref:
             if not is_err(got):
                 return f"agree: {where} gives {got} but system.parameters.<path>(date) raises {ref['error']}"
@@ -643,7 +661,7 @@ def nontrivial(c, obs):
     seen = {}
     for o, a in zip(c["ops"], obs):
         if o["op"] == "read" and o["route"] in ("system", "formula", "traced") and o["tail"]["k"] == "whole":
-            key = (tuple(o["path"]), o["date"])
+            key = (o.get("sys", 0), tuple(o["path"]), o["date"])
             r = repr(a[0])
             if key in seen and seen[key] != r:
                 return True
@@ -655,7 +673,8 @@ def classify(c, obs):
     kinds = {o["op"] for o in c["ops"]}
     tails = {o["tail"]["k"] for o in c["ops"] if o["op"] == "read"}
     tag = "+".join(sorted(kinds - {"read"})) or "reads-only"
-    return tag + "/" + "+".join(sorted(tails))
+    nsys = 1 + sum(1 for o in c["ops"] if o["op"] == "reform")
+    return f"{min(nsys, 4)}sys:" + tag + "/" + "+".join(sorted(tails))
 
 
 # ---- generation -----------------------------------------------------------------------------
@@ -931,66 +950,104 @@ def gen_update(rng, tree, pool, bad=False):
 
 
 def gen_case(rng):
-    base = O(rng.choice(BASES))
-    pool = list(range(base, base + 30))
+    """One baseline (system 0) and up to three reforms (over the baseline or over a reform); every operation
+    names its system.  shape[k]: the tree system k holds (for choosing paths); base[k]: its baseline."""
+    base_ord = O(rng.choice(BASES))
+    pool = list(range(base_ord, base_ord + 30))
     tree = gen_node(rng, pool, 0)
     tree["layout"] = "dir"
-    cur = tree
+    shape, base = [tree], [None]
     dates = sorted(tree_dates(tree, set()))
     hot = [iso(rng.choice(pool)) for _ in range(rng.choice([2, 2, 3]))]
     ops = []
-    in_reform = False
-    budget_inside = 0
-    n_ops = rng.choice([5, 6, 8, 10, 12, 14, 16])
-    last_read = None
+    n_ops = rng.choice([5, 6, 8, 10, 12, 14, 16, 18])
+    last_read = None            # a whole read through a view route: (path, date), repeated on several systems
+
+    def pick_system():
+        if len(shape) == 1 or rng.random() < 0.35:
+            return len(shape) - 1
+        return rng.randrange(len(shape))
+
+    def related(k):
+        """the systems connected to k by 'is a reform of'"""
+        out, changed = {k}, True
+        while changed:
+            changed = False
+            for j in range(len(shape)):
+                if base[j] is not None and (j in out) != (base[j] in out):
+                    out.update((j, base[j]))
+                    changed = True
+        return sorted(out)
+
+    def reread(systems_):
+        """the reads that tell a stale or foreign view from the system's own: same path and date"""
+        for j in systems_:
+            again = dict(last_read, sys=j, route=rng.choice(["system", "system", "formula", "traced"]),
+                         form=rng.randrange(3))
+            ops.append(again)
+
     while len(ops) < n_ops:
         r = rng.random()
-        if r < 0.62:
-            o = gen_read(rng, cur, hot, dates)
+        k = pick_system()
+        if r < 0.58:
+            o = gen_read(rng, shape[k], hot, dates)
+            o["sys"] = k
             if o["route"] != "direct" and o["tail"]["k"] == "whole":
                 last_read = o
             ops.append(o)
             continue
-        before = len(ops)
-        if r < 0.74:
-            new = revalue(rng, cur, pool) if rng.random() < 0.7 else gen_node(rng, pool, 0)
+        if r < 0.72:
+            new = revalue(rng, shape[k], pool) if rng.random() < 0.75 else gen_node(rng, pool, 0)
             new = dict(new, layout="dir")
-            ops.append({"op": "load", "how": rng.choice(["dir", "dir", "assign"]), "tree": new})
-            cur = new
-            dates = sorted(tree_dates(cur, set(dates)))
-        elif r < 0.82:
-            ops.append({"op": "reform", "inside": 0})
-            in_reform = True
-            budget_inside = len(ops) - 1
+            if last_read is not None and rng.random() < 0.5:
+                reread([j for j in related(k) if rng.random() < 0.7])        # fill the caches before the change
+            ops.append({"op": "load", "sys": k, "how": rng.choice(["dir", "dir", "assign"]), "tree": new})
+            shape[k] = new
+            dates = sorted(tree_dates(new, set(dates)))
+            changed = k
+        elif r < 0.84 and len(shape) < 4:
+            ops.append({"op": "reform", "sys": k, "inside": 0})
+            shape.append(shape[k])
+            base.append(k)
+            changed = len(shape) - 1
         elif r < 0.96:
-            if not in_reform and rng.random() < 0.9:
-                ops.append({"op": "reform", "inside": 0})
-                in_reform = True
-                budget_inside = len(ops) - 1
-                if rng.random() < 0.6:                      # a read inside apply, before the modifier
-                    ops.append(gen_read(rng, cur, hot, dates, route=rng.choice(["system", "formula", "traced"]),
-                                        path=last_read and last_read["path"], date=last_read and last_read["date"]))
+            reforms = [j for j in range(len(shape)) if base[j] is not None]
+            if not reforms and len(shape) < 4 and rng.random() < 0.9:
+                ops.append({"op": "reform", "sys": k, "inside": 0})
+                shape.append(shape[k])
+                base.append(k)
+                reforms = [len(shape) - 1]
+                if last_read is not None and rng.random() < 0.6:      # a read inside apply, before the modifier
+                    reread([reforms[0]])
+            k = rng.choice(reforms) if reforms and rng.random() < 0.95 else k
+            src = shape[base[k]] if base[k] is not None else shape[k]      # the modifier gets the BASELINE's tree
             bad = rng.random() < 0.06
-            ups = [gen_update(rng, cur, pool) for _ in range(rng.choice([1, 1, 2, 3]))]
+            ups = [gen_update(rng, src, pool) for _ in range(rng.choice([1, 1, 2, 3]))]
             if bad:
-                ups.insert(rng.randrange(len(ups) + 1), gen_update(rng, cur, pool, bad=True))
-            ops.append({"op": "modify", "ups": ups, "returns": rng.random() < 0.94})
+                ups.insert(rng.randrange(len(ups) + 1), gen_update(rng, src, pool, bad=True))
+            returns = rng.random() < 0.94
+            ops.append({"op": "modify", "sys": k, "ups": ups, "returns": returns})
+            if base[k] is not None and returns and not bad:
+                shape[k] = src
             for u in ups:
                 dates = sorted(set(dates) | {O(u["start"])} | ({O(u["stop"]) + 1} if u["stop"] else set()))
+            changed = k
         else:
-            u = gen_update(rng, cur, pool, bad=rng.random() < 0.1)
-            ops.append(dict(u, op="poke"))
-        # the read that tells a stale view from a fresh one: same path and date as before the change
-        if last_read is not None and len(ops) > before and rng.random() < 0.7:
-            again = dict(last_read)
-            again["route"] = rng.choice(["system", "system", "formula", "traced"])
-            again["form"] = rng.randrange(3)
-            ops.append(again)
+            u = gen_update(rng, shape[k], pool, bad=rng.random() < 0.1)
+            ops.append(dict(u, op="poke", sys=k))
+            changed = k
+        if last_read is not None and rng.random() < 0.8:
+            # after the change: the changed system first or last, and the systems related to it
+            others = [j for j in related(changed) if j != changed and rng.random() < 0.8]
+            order = [changed] + others if rng.random() < 0.5 else others + [changed]
+            reread(order)
+            if others and rng.random() < 0.5:
+                reread([rng.choice(others)])
     # how many of the operations after each 'reform' run inside its apply()
     for i, o in enumerate(ops):
         if o["op"] == "reform":
             nxt = next((j for j in range(i + 1, len(ops)) if ops[j]["op"] == "reform"), len(ops))
-            o["inside"] = rng.choice([0, nxt - i - 1, nxt - i - 1, rng.randrange(0, nxt - i)]) if nxt > i + 1 else 0
+            o["inside"] = rng.choice([0, 0, nxt - i - 1, rng.randrange(0, nxt - i)]) if nxt > i + 1 else 0
     return {"tree": tree, "ops": ops}
 
 
@@ -1016,6 +1073,9 @@ def shrink(c, still_fails):
         progress = False
         i = 0
         while i < len(cur["ops"]):
+            if cur["ops"][i]["op"] == "reform":       # removing it would renumber the systems
+                i += 1
+                continue
             cand = dict(cur, ops=cur["ops"][:i] + cur["ops"][i + 1:])
             if still_fails(cand):
                 cur, progress = cand, True
